@@ -537,3 +537,14 @@ def replay(ctx, data):
     trig = bytes.fromhex(w["trig"]) if w.get("trig") else None
     r, enc, dec = O.c01_eval(c, L[c.name], v, trig)
     return r is None
+
+
+# nested tier, extension W21 (Props/C01Nested3.lean, Proofs/CompCompu*.lean): compu-method leaves (LINEAR, TEXTTABLE, DTC-DOP) as
+# components at any depth of structures / fields / multiplexers
+LEAN_TARGETS += ['OdxVerif.Props.C01Nested3']
+THEOREMS += ["OdxVerif.Codec." + t for t in [
+    'C01_roundtrip_nested3', 'C01_roundtrip_nested3_whole', 'C01_roundtrip_bytesize3', 'C01_roundtrip_nested3_of_described2',
+    'C01_linear_leaf_ok', 'Described3.ok', 'DescribedTop3.ok', 'Described2.to3', 'DescribedTop.to3',
+    'encodeDct_obj', 'decodeDct_obj', 'Comp.ofConvLeaf_ok', 'Comp.ofConvLeaf_endOk', 'Comp.ofConvPhysConst_ok',
+    'LinLeaf.convOk', 'LinLeaf.comp_ok', 'LinLeaf.constComp_ok', 'TTLeaf.convOk', 'TTLeaf.comp_ok', 'TTLeaf.constComp_ok',
+    'DtcLeaf.convOk', 'DtcLeaf.comp_ok', 'DtcLeaf.constComp_ok', 'methodP2I_textTable_of_p2i', 'methodI2P_textTable_of_i2p']]
